@@ -1,12 +1,174 @@
-/- Driver ops for the Cache model. Stub until the model lands. -/
+/- Driver ops for the cache transition system (`PypyrModel/CacheTS.lean`).
+
+   cache.run     {threads: [[op…]…], sched: [tid…], seed: [[k,id]…], fails: [n…], noCache: bool,
+                  keys: n, mode: "turn"|"micro", finish: bool}
+                 op = {"get": k} | "clear"
+                 → {hist: [ev…] (oldest first), results: [[res…]…] (oldest first), cache: [[k,id]…],
+                    calls: n, lock: tid|null, done: bool}
+                 ev = ["hit",t,k,c] | ["create",t,k,c] | ["fail",t,k,c] | ["clear",t]
+                 res = ["val",c] | ["raised",c] | ["cleared"]
+   cache.enum    {threads, seed, fails, noCache, limit: n} → {count: n, scheds: [[tid…]…] | null (count > limit)}
+   cache.judge   {hist: [ev…] (oldest first), seed, fails} → {spec: bool, distinct: bool, ok: bool}
+   cache.key     {truthy: bool, parent: str, name: str} → {key: ["pair",p,n]|["bare",n], old: str}
+   cache.syspath {threads: [[p…]…], sched, exists: [p…], base: [p…], finish: bool}
+                 → {sysPath: [p…], known: [p…] (sorted, deduplicated), done: bool}
+-/
 import Lean.Data.Json
 import PypyrModel.Json
+import PypyrModel.CacheTS
 
 namespace Pypyr.OpCache
 open Lean (Json)
+open Pypyr.CacheTS
 
-/-- Handle one request object (already parsed); `Except.error` = protocol-level reject. -/
-def handle (_op : String) (_j : Json) : Except String Json :=
-  .error "not implemented"
+def natList (j : Json) : Except String (List Nat) := do
+  let arr ← j.getArr?
+  arr.toList.mapM jsonNat?
+
+def opOfJson (j : Json) : Except String Op :=
+  match j with
+  | .str "clear" => pure .clear
+  | _ => do
+    let k ← jsonNat? (← j.getObjVal? "get")
+    pure (.get k)
+
+def evToJson : Ev → Json
+  | .hit t k c => Json.arr #[Json.str "hit", t, k, c]
+  | .create t k c => Json.arr #[Json.str "create", t, k, c]
+  | .fail t k c => Json.arr #[Json.str "fail", t, k, c]
+  | .clear t => Json.arr #[Json.str "clear", t]
+
+def evOfJson (j : Json) : Except String Ev := do
+  let arr ← j.getArr?
+  match arr.toList with
+  | [Json.str "hit", t, k, c] => pure (.hit (← jsonNat? t) (← jsonNat? k) (← jsonNat? c))
+  | [Json.str "create", t, k, c] => pure (.create (← jsonNat? t) (← jsonNat? k) (← jsonNat? c))
+  | [Json.str "fail", t, k, c] => pure (.fail (← jsonNat? t) (← jsonNat? k) (← jsonNat? c))
+  | [Json.str "clear", t] => pure (.clear (← jsonNat? t))
+  | _ => .error "bad event"
+
+def resToJson : Res → Json
+  | .val c => Json.arr #[Json.str "val", c]
+  | .raised c => Json.arr #[Json.str "raised", c]
+  | .cleared => Json.arr #[Json.str "cleared"]
+
+def seedOfJson (j : Json) : Except String (Key → Option Obj) := do
+  let arr ← j.getArr?
+  let pairs ← arr.toList.mapM fun p => do
+    match (← p.getArr?).toList with
+    | [k, c] => pure ((← jsonNat? k), (← jsonNat? c))
+    | _ => .error "bad seed pair"
+  pure fun k => (pairs.find? (·.1 == k)).map (·.2)
+
+def cfgOfJson (j : Json) : Except String Cfg := do
+  let seed ← seedOfJson (← j.getObjVal? "seed")
+  let fails ← natList (← j.getObjVal? "fails")
+  let noCache ← match j.getObjVal? "noCache" with
+    | .ok b => b.getBool?
+    | .error _ => pure false
+  pure { seed := seed, fails := fun n => fails.contains n, noCache := noCache }
+
+def boolField (j : Json) (name : String) : Except String Bool := do
+  (← j.getObjVal? name).getBool?
+
+/-- all maximal turn-level schedules in which every entry is an enabled thread -/
+def enumScheds (cfg : Cfg) (n : Nat) : Nat → State → List (List Tid)
+  | 0, _ => [[]]
+  | fuel + 1, st =>
+    let en := (List.range n).filter (enabled st)
+    if en.isEmpty then [[]]
+    else en.flatMap fun t => (enumScheds cfg n fuel (turn cfg st t)).map (t :: ·)
+
+/-- number of such schedules (without building them) -/
+def countScheds (cfg : Cfg) (n : Nat) : Nat → State → Nat
+  | 0, _ => 1
+  | fuel + 1, st =>
+    let en := (List.range n).filter (enabled st)
+    if en.isEmpty then 1
+    else (en.map fun t => countScheds cfg n fuel (turn cfg st t)).sum
+
+def progsOfJson (j : Json) : Except String (List (List Op)) := do
+  (← (← j.getObjVal? "threads").getArr?).toList.mapM fun p => do
+    (← p.getArr?).toList.mapM opOfJson
+
+def handle (op : String) (j : Json) : Except String Json := do
+  match op with
+  | "enum" =>
+    let cfg ← cfgOfJson j
+    let progs ← progsOfJson j
+    let limit ← jsonNat? (← j.getObjVal? "limit")
+    let n := progs.length
+    let st0 := init cfg (fun t => (progs[t]?).getD [])
+    let fuel := 8 * (progs.map List.length).sum + 8
+    let cnt := countScheds cfg n fuel st0
+    if cnt > limit then
+      pure (Json.mkObj [("count", (cnt : Json)), ("scheds", Json.null)])
+    else
+      let ss := enumScheds cfg n fuel st0
+      pure (Json.mkObj [("count", (cnt : Json)),
+        ("scheds", Json.arr (ss.map fun s => Json.arr (s.map fun (t : Nat) => (t : Json)).toArray).toArray)])
+  | "run" =>
+    let cfg ← cfgOfJson j
+    let progs ← progsOfJson j
+    let sched ← natList (← j.getObjVal? "sched")
+    let nkeys ← jsonNat? (← j.getObjVal? "keys")
+    let mode ← (← j.getObjVal? "mode").getStr?
+    let fin ← boolField j "finish"
+    let n := progs.length
+    if sched.any (· ≥ n) then .error "schedule names a thread that does not exist"
+    let st0 := init cfg (fun t => (progs[t]?).getD [])
+    let st1 ← match mode with
+      | "turn" => pure (runTurns cfg st0 sched)
+      | "micro" => pure (run cfg st0 sched)
+      | _ => .error "mode must be turn or micro"
+    let totalOps := (progs.map List.length).sum
+    let st := if fin then finish cfg n (8 * totalOps + 8) st1 else st1
+    let done := (List.range n).all fun t => (st.threads t).pc == .idle && (st.threads t).ops.isEmpty
+    let cacheJ := (List.range nkeys).filterMap fun k =>
+      (st.cache k).map fun c => Json.arr #[(k : Json), (c : Json)]
+    pure (Json.mkObj [
+      ("hist", Json.arr (st.hist.reverse.map evToJson).toArray),
+      ("results", Json.arr ((List.range n).map fun t =>
+          Json.arr ((st.threads t).results.reverse.map resToJson).toArray).toArray),
+      ("cache", Json.arr cacheJ.toArray),
+      ("calls", (st.calls : Json)),
+      ("lock", match st.lock with | some t => (t : Json) | none => Json.null),
+      ("done", Json.bool done)])
+  | "judge" =>
+    let cfg ← cfgOfJson j
+    let evs ← (← (← j.getObjVal? "hist").getArr?).toList.mapM evOfJson
+    let h := evs.reverse
+    let spec := (specRun cfg h).isSome
+    let distinct := decide (callIds h).Nodup
+    pure (Json.mkObj [("spec", Json.bool spec), ("distinct", Json.bool distinct),
+                      ("ok", Json.bool (holds cfg h))])
+  | "key" =>
+    let truthy ← boolField j "truthy"
+    let parent ← (← j.getObjVal? "parent").getStr?
+    let name ← (← j.getObjVal? "name").getStr?
+    let key := match pipelineKey truthy parent name with
+      | .pair p n => Json.arr #[Json.str "pair", Json.str p, Json.str n]
+      | .bare n => Json.arr #[Json.str "bare", Json.str n]
+    pure (Json.mkObj [("key", key), ("old", Json.str (pipelineKeyOld truthy parent name))])
+  | "syspath" =>
+    let progs ← (← (← j.getObjVal? "threads").getArr?).toList.mapM natList
+    let sched ← natList (← j.getObjVal? "sched")
+    let exs ← natList (← j.getObjVal? "exists")
+    let base ← natList (← j.getObjVal? "base")
+    let fin ← boolField j "finish"
+    let n := progs.length
+    if sched.any (· ≥ n) then .error "schedule names a thread that does not exist"
+    let ex := fun p => exs.contains p
+    let st0 := spInit base (fun t => (progs[t]?).getD [])
+    let st1 := spRunTurns ex st0 sched
+    let totalOps := (progs.map List.length).sum
+    let st := if fin then spFinish ex n (8 * totalOps + 8) st1 else st1
+    let done := (List.range n).all fun t => (st.threads t).pc == .spIdle && (st.threads t).ops.isEmpty
+    let known := (st.known.eraseDups.toArray.qsort (· < ·)).toList
+    pure (Json.mkObj [
+      ("sysPath", Json.arr (st.sysPath.map fun (p : Nat) => (p : Json)).toArray),
+      ("known", Json.arr (known.map fun (p : Nat) => (p : Json)).toArray),
+      ("done", Json.bool done)])
+  | _ => .error s!"unknown op {op}"
 
 end Pypyr.OpCache
